@@ -35,7 +35,9 @@ func getEnv(spec string) (*hx.RouterEnv, error) {
 		envUsers[spec]++
 		return e, nil
 	}
-	router.VerifQuiet()
+	// the routers of these kinds log EVERYTHING into io.Discard: the log-formatting code (readable names, request
+	// context marshalers) is part of what must never panic
+	router.VerifLogDiscard()
 	if len(envOrder) >= 6 {
 		for i, old := range envOrder {
 			if envUsers[old] == 0 {
